@@ -56,12 +56,18 @@ pub fn bbox8_z<P: HasXY + HasM + HasZ>(b: &shapefile::record::GenericBBox<P>) ->
 }
 
 /// One of the 13 concrete, non-null shape types.
-pub trait TShape: EsriShape + ConcreteReadableShape + Sized {
+pub trait TShape:
+    EsriShape + ConcreteReadableShape + Sized + TryFrom<Shape, Error = Error> + Into<Shape>
+{
     const CODE: i32;
+    /// 0 = single point, 1 = multi-vertex
+    const MULTI: bool;
     /// Build through the public constructor (`new` / `with_parts` / `with_rings`).
     fn build(m: &Model) -> Self;
     /// Read back through public accessors. `bbox` is what the shape reports.
     fn extract(&self) -> Model;
+    /// The payload of the matching `Shape` variant, by reference.
+    fn of_shape(s: &Shape) -> Option<&Self>;
 }
 
 fn part_vec<P: Pt>(m: &Model, p: usize) -> Vec<P> {
@@ -85,9 +91,10 @@ fn all_points<P: Pt>(m: &Model) -> Vec<P> {
 }
 
 macro_rules! impl_point {
-    ($T:ty, $code:expr) => {
+    ($T:ty, $V:ident, $code:expr) => {
         impl TShape for $T {
             const CODE: i32 = $code;
+            const MULTI: bool = false;
             fn build(m: &Model) -> Self {
                 <$T as Pt>::mk(&m.v[0])
             }
@@ -97,17 +104,24 @@ macro_rules! impl_point {
                 m.v[0] = Pt::get(self);
                 m
             }
+            fn of_shape(s: &Shape) -> Option<&Self> {
+                match s {
+                    Shape::$V(t) => Some(t),
+                    _ => None,
+                }
+            }
         }
     };
 }
-impl_point!(Point, T_POINT);
-impl_point!(PointM, T_POINTM);
-impl_point!(PointZ, T_POINTZ);
+impl_point!(Point, Point, T_POINT);
+impl_point!(PointM, PointM, T_POINTM);
+impl_point!(PointZ, PointZ, T_POINTZ);
 
 macro_rules! impl_multipoint {
-    ($T:ty, $P:ty, $code:expr, $bb:ident) => {
+    ($T:ident, $P:ty, $code:expr, $bb:ident) => {
         impl TShape for $T {
             const CODE: i32 = $code;
+            const MULTI: bool = true;
             fn build(m: &Model) -> Self {
                 <$T>::new(all_points::<$P>(m))
             }
@@ -124,6 +138,12 @@ macro_rules! impl_multipoint {
                 m.bbox = $bb(self.bbox());
                 m
             }
+            fn of_shape(s: &Shape) -> Option<&Self> {
+                match s {
+                    Shape::$T(t) => Some(t),
+                    _ => None,
+                }
+            }
         }
     };
 }
@@ -132,9 +152,10 @@ impl_multipoint!(MultipointM, PointM, T_MULTIPOINTM, bbox8_m);
 impl_multipoint!(MultipointZ, PointZ, T_MULTIPOINTZ, bbox8_z);
 
 macro_rules! impl_polyline {
-    ($T:ty, $P:ty, $code:expr, $bb:ident) => {
+    ($T:ident, $P:ty, $code:expr, $bb:ident) => {
         impl TShape for $T {
             const CODE: i32 = $code;
+            const MULTI: bool = true;
             fn build(m: &Model) -> Self {
                 let mut parts = Vec::with_capacity(m.nparts);
                 let mut p = 0;
@@ -164,6 +185,12 @@ macro_rules! impl_polyline {
                 }
                 m.bbox = $bb(self.bbox());
                 m
+            }
+            fn of_shape(s: &Shape) -> Option<&Self> {
+                match s {
+                    Shape::$T(t) => Some(t),
+                    _ => None,
+                }
             }
         }
     };
@@ -199,9 +226,10 @@ pub fn extract_polygon<P: Pt>(code: i32, g: &GenericPolygon<P>, bbox: [f64; 8]) 
 }
 
 macro_rules! impl_polygon {
-    ($T:ty, $P:ty, $code:expr, $bb:ident) => {
+    ($T:ident, $P:ty, $code:expr, $bb:ident) => {
         impl TShape for $T {
             const CODE: i32 = $code;
+            const MULTI: bool = true;
             fn build(m: &Model) -> Self {
                 let mut rings = Vec::with_capacity(m.nparts);
                 let mut p = 0;
@@ -218,6 +246,12 @@ macro_rules! impl_polygon {
             }
             fn extract(&self) -> Model {
                 extract_polygon::<$P>($code, self, $bb(self.bbox()))
+            }
+            fn of_shape(s: &Shape) -> Option<&Self> {
+                match s {
+                    Shape::$T(t) => Some(t),
+                    _ => None,
+                }
             }
         }
     };
@@ -249,6 +283,7 @@ pub fn patch_kind(p: &Patch) -> i32 {
 
 impl TShape for Multipatch {
     const CODE: i32 = T_MULTIPATCH;
+    const MULTI: bool = true;
     fn build(m: &Model) -> Self {
         let mut patches = Vec::with_capacity(m.nparts);
         let mut p = 0;
@@ -279,6 +314,12 @@ impl TShape for Multipatch {
         }
         m.bbox = bbox8_z(self.bbox());
         m
+    }
+    fn of_shape(s: &Shape) -> Option<&Self> {
+        match s {
+            Shape::Multipatch(t) => Some(t),
+            _ => None,
+        }
     }
 }
 
@@ -392,4 +433,32 @@ pub fn assume_xy_not_nan(m: &Model) {
         kani::assume(m.v[i][1] == m.v[i][1]);
         i += 1;
     }
+}
+
+/// Make part `p` closed by constant folding: first and last vertex get the same concrete
+/// value (so `first == last` is decided without the solver); interior stays as it is.
+pub fn pin_closed(m: &mut Model, p: usize, v: [f64; 4]) {
+    let s = m.part_start(p);
+    let e = s + m.plen[p] - 1;
+    m.v[s] = v;
+    m.v[e] = v;
+}
+/// Make part `p` open by constant folding: first.x and last.x are distinct concrete values,
+/// every other coordinate of the two end vertices stays as it is (symbolic).
+pub fn pin_open(m: &mut Model, p: usize, x_first: f64, x_last: f64) {
+    let s = m.part_start(p);
+    let e = s + m.plen[p] - 1;
+    m.v[s][0] = x_first;
+    m.v[e][0] = x_last;
+}
+/// Exact twice-signed-area (shoelace as the whitepaper orients it) of part `p` whose X/Y are
+/// small integers stored in `xy`.
+pub fn shoelace2_int(xy: &[[i32; 2]], s: usize, n: usize) -> i32 {
+    let mut acc: i32 = 0;
+    let mut i = 0;
+    while i + 1 < n {
+        acc += (xy[s + i + 1][0] - xy[s + i][0]) * (xy[s + i + 1][1] + xy[s + i][1]);
+        i += 1;
+    }
+    acc
 }
